@@ -78,6 +78,16 @@ func configs(thorough bool) []cfgCase {
 	ri.v.Resumed, ri.v.Interrupted, ri.v.AliasStore = true, true, true
 	ra := mk("12-resumed-aliasstore", 0, false, 0, false)
 	ra.v.Resumed, ra.v.AliasStore = true, true
+	// pre-shared keys at the edges of the 16-bit length field of the premaster encoding (RFC 4279): whatever the
+	// library does with a key it cannot encode, the session keys must still depend on it. No extended master
+	// secret here, so that "derived from an empty / truncated key" is computable from the hello randoms alone.
+	for _, n := range []int{1, 65535, 65536, 65537, 131072} {
+		pk := mk(fmt.Sprintf("12-psk-gcm-keylen%d", n), dtls.TLS_PSK_WITH_AES_128_GCM_SHA256, true, 0, false)
+		key := bytes.Repeat([]byte{0x5a, 0xc3, 0x17}, n/3+1)[:n]
+		pk.v.C.PSK, pk.v.S.PSK = key, key
+		pk.v.C.EMS, pk.v.S.EMS = 2, 2
+		out = append(out, pk)
+	}
 	out = append(out, res, ca, ri, ra)
 	return out
 }
@@ -207,6 +217,7 @@ func exporterOracle(pr *world.Pair, cbs [2]*cbRec) string {
 					{"the TLS 1.2 PRF with an empty secret over label+server_random+client_random", refimpl.Exporter12(h, nil, sec.ServerRandom, sec.ClientRandom, label, nil, false, n)},
 					{"P_hash with an empty secret over label+client_random+server_random", refimpl.PHash(h, nil, append(append([]byte(label), sec.ClientRandom...), sec.ServerRandom...), n)},
 					{"P_hash with an empty secret over label+server_random+client_random", refimpl.PHash(h, nil, append(append([]byte(label), sec.ServerRandom...), sec.ClientRandom...), n)},
+					{"the TLS 1.2 exporter keyed by the master secret of an EMPTY pre-shared key (premaster 00 00 00 00, no extended master secret)", refimpl.Exporter12(h, refimpl.MasterSecret(h, refimpl.PSKPremaster(nil), sec.ClientRandom, sec.ServerRandom), sec.ClientRandom, sec.ServerRandom, label, nil, false, n)},
 					{"the TLS 1.3 exporter with an all-zero exporter secret", refimpl.Exporter13(h, make([]byte, h.Size()), label, nil, n)},
 					{"the TLS 1.3 exporter with an empty exporter secret", refimpl.Exporter13(h, nil, label, nil, n)},
 				}
